@@ -34,22 +34,23 @@ NRec == Len(Rec)
 
 VARIABLE l
 
-AllReadings(ck) == UNION {Readings(ck.t, ck.bs[j]) : j \in DOMAIN ck.bs}
+\* readings are taken one at a time (Numeral.tla: a reading with a four-digit exponent costs minutes)
+SomeBase(ck, P(_)) == \E j \in DOMAIN ck.bs : P(ck.bs[j])
 
 CheckOne(ck, v0, i, c) ==
   IF ck.r = "present"
   THEN (IF ck.e \/ ck.a THEN TRUE ELSE PrintT(<<"REJECT", i, c, "no-numeral">>))
-  ELSE \E rs \in {AllReadings(ck)}, v \in {IF "v" \in DOMAIN ck THEN ck.v ELSE v0} :
-       IF rs = {} THEN PrintT(<<"UNSUPPORTED", i, c>>)
-       ELSE IF ~PeriodIn(rs) THEN PrintT(<<"REJECT", i, c, "period">>)
+  ELSE \E v \in {IF "v" \in DOMAIN ck THEN Q(ck.v.n, ck.v.d) ELSE v0} :
+       IF ~SomeBase(ck, LAMBDA b : Supported(ck.t, b)) THEN PrintT(<<"UNSUPPORTED", i, c>>)
+       ELSE IF ~(\A j \in DOMAIN ck.bs : PeriodOK(ck.t, ck.bs[j])) THEN PrintT(<<"REJECT", i, c, "period">>)
        ELSE CASE ck.r = "exact" ->
-                   IF ExactIn(rs, v) THEN TRUE ELSE PrintT(<<"REJECT", i, c, "exact-wrong">>)
+                   IF SomeBase(ck, LAMBDA b : ExactOK(v, ck.t, b)) THEN TRUE ELSE PrintT(<<"REJECT", i, c, "exact-wrong">>)
               [] ck.r = "approx" ->
-                   IF ApproxIn(rs, v) THEN TRUE ELSE PrintT(<<"REJECT", i, c, "approx-wrong">>)
+                   IF SomeBase(ck, LAMBDA b : ApproxOK(v, ck.t, b)) THEN TRUE ELSE PrintT(<<"REJECT", i, c, "approx-wrong">>)
               [] ck.r = "strict" ->
-                   IF ~ApproxIn(rs, v) THEN PrintT(<<"REJECT", i, c, "approx-wrong">>)
-                   ELSE IF ~StrictIn(rs, v) THEN PrintT(<<"REJECT", i, c, "approx-on-exact">>)
-                   ELSE TRUE
+                   IF SomeBase(ck, LAMBDA b : StrictOK(v, ck.t, b)) THEN TRUE
+                   ELSE IF SomeBase(ck, LAMBDA b : ApproxOK(v, ck.t, b)) THEN PrintT(<<"REJECT", i, c, "approx-on-exact">>)
+                   ELSE PrintT(<<"REJECT", i, c, "approx-wrong">>)
 
 Verdict(ev, i) ==
   IF "crash" \in DOMAIN ev THEN PrintT(<<"CRASH", i>>)
